@@ -4,6 +4,7 @@ CONSTANTS
   Heights = {0}
   MaxBest = 1000000
   MaxStarts = 1000000
+  InPlace = FALSE
   Strict = TRUE
 INVARIANTS VersionStable ReceiptFormatStable AssignedMonotone DbIsCfg
 POSTCONDITION TraceAccepted
